@@ -26,7 +26,7 @@ def R(name, q, args=(0, 0, 0, 0), tid=1, ts=1, data=None):
 ALPHA = [
     ('getpid@1', lambda ts: [R('BSC_getpid', 1, tid=1, ts=ts), R('BSC_getpid', 2, (0, 5, 0, 0), tid=1, ts=ts + 1)]),
     ('getpid@3', lambda ts: [R('BSC_getpid', 1, tid=3, ts=ts), R('BSC_getpid', 2, (0, 5, 0, 0), tid=3, ts=ts + 1)]),
-    ('newthread-data 3->10 by 1', lambda ts: [R('TRACE_DATA_NEWTHREAD', 0, (3, 10, 0, 0), tid=1, ts=ts)]),
+    ('newthread-data 3->10 by 1', lambda ts: [R('TRACE_DATA_NEWTHREAD', 0, (3, 10, 1, 7), tid=1, ts=ts)]),      # words 2, 3 (exec-copy flag, unique id) non-zero
     ('newthread-string by 1', lambda ts: [R('TRACE_STRING_NEWTHREAD', 0, tid=1, ts=ts, data=b'childproc'.ljust(32, b'\0'))]),
     ('terminate-pid@3 -> 88', lambda ts: [R('TRACE_DATA_THREAD_TERMINATE_PID', 0, (88, 1, 0, 0), tid=3, ts=ts)]),
     ('thd-data tid3 pid99 by 2', lambda ts: [R('PERF_THD_Data', 0, (99, 3, 0, 0), tid=2, ts=ts)]),
